@@ -499,4 +499,151 @@ def serverSend (m : RelayToClientMsg) : Option SendCheck :=
       | .datagrams _ d => if d.contents.isEmpty then .emptyPacket else .ok
       | _ => .ok
 
+/-! ## The key cache (`key_cache.rs`) and the decoders as they are called: with a cache
+
+`KeyCache` is `Inner::Disabled` (capacity 0) or an `lru::LruCache<PublicKey, ()>` behind a mutex.
+The cache is a list of the stored keys, most recently used first.  `key_from_slice`:
+disabled → `PublicKey::try_from(slice)`; otherwise a slice that is not 32 bytes long fails
+(`expect_err` would panic if `try_from` accepted it); a hit (`get_key_value`, which also moves
+the entry to the front) returns the stored key; a miss validates with `PublicKey::from_bytes`,
+stores the key only when it is valid (`put`: evicts the least recently used entry when full)
+and returns it.  Only successful parses are stored.  Mutex poisoning is not modelled (nothing
+panics while the lock is held). -/
+
+structure KeyCache where
+  /-- `0` = `Inner::Disabled`. -/
+  cap : Nat
+  /-- most recently used first -/
+  entries : List Bytes
+deriving Repr
+
+/-- `KeyCache::new(capacity)`. -/
+def KeyCache.new (cap : Nat) : KeyCache := ⟨cap, []⟩
+
+/-- `KeyCache::key_from_slice`. -/
+def KeyCache.keyFromSlice (validKey : Bytes → Bool) (c : KeyCache) (slice : Bytes) :
+    Res Bytes × KeyCache :=
+  if c.cap = 0 then
+    ((if validKey slice then .ok slice else rerr .invalidKey), c)
+  else if slice.length ≠ 32 then
+    ((if validKey slice then .error .panic else rerr .invalidKey), c)
+  else
+    match c.entries.find? (fun k => k == slice) with
+    | some k => (.ok k, { c with entries := k :: c.entries.erase k })
+    | none =>
+      if validKey slice then (.ok slice, { c with entries := (slice :: c.entries).take c.cap })
+      else (rerr .invalidKey, c)
+
+/-- The datagram arm with the cache threaded through. -/
+def decodeKeyedDatagramsC (validKey : Bytes → Bool) (c : KeyCache) (content : Bytes)
+    (isBatch : Bool) : Res (Bytes × Datagrams) × KeyCache :=
+  if content.length < keyLen then (rerr .invalidFrame, c)
+  else
+    match sliceTo keyLen content with
+    | .error f => (.error f, c)
+    | .ok slice =>
+      match c.keyFromSlice validKey slice with
+      | (.error f, c') => (.error f, c')
+      | (.ok key, c') =>
+        match sliceFrom keyLen content with
+        | .error f => (.error f, c')
+        | .ok rest =>
+          match Datagrams.decode rest isBatch with
+          | .error f => (.error f, c')
+          | .ok d => (.ok (key, d), c')
+
+/-- `RelayToClientMsg::from_bytes(content, cache, protocol_version)`. -/
+def decodeR2CC (validKey : Bytes → Bool) (c : KeyCache) (v : Version) (bs : Bytes) :
+    Res RelayToClientMsg × KeyCache :=
+  match decodeFrameType bs with
+  | .error f => (.error f, c)
+  | .ok (t, content) =>
+    if content.length > maxPacketSize then (rerr (.tooLarge content.length), c)
+    else
+      match t with
+      | .relayToClientDatagram | .relayToClientDatagramBatch =>
+        match decodeKeyedDatagramsC validKey c content (t == .relayToClientDatagramBatch) with
+        | (.error f, c') => (.error f, c')
+        | (.ok (k, d), c') => (.ok (.datagrams k d), c')
+      | .endpointGone =>
+        if content.length ≠ keyLen then (rerr .invalidFrame, c)
+        else
+          match c.keyFromSlice validKey content with
+          | (.error f, c') => (.error f, c')
+          | (.ok k, c') => (.ok (.endpointGone k), c')
+      | .ping =>
+        match decodePing content with
+        | .error f => (.error f, c)
+        | .ok d => (.ok (.ping d), c)
+      | .pong =>
+        match decodePing content with
+        | .error f => (.error f, c)
+        | .ok d => (.ok (.pong d), c)
+      | .health =>
+        if v ≠ .v1 then (rerr .notAllowedInVersion, c)
+        else if !utf8Valid content then (rerr .invalidUtf8, c)
+        else (.ok (.health content), c)
+      | .restarting =>
+        match decodeRestarting content with
+        | .error f => (.error f, c)
+        | .ok (a, b) => (.ok (.restarting a b), c)
+      | .status =>
+        if v ≠ .v2 then (rerr .notAllowedInVersion, c)
+        else
+          match Status.decode content with
+          | .error f => (.error f, c)
+          | .ok s => (.ok (.status s), c)
+      | other => (rerr (.invalidFrameType other), c)
+
+/-- `ClientToRelayMsg::from_bytes(content, cache)`. -/
+def decodeC2RC (validKey : Bytes → Bool) (c : KeyCache) (bs : Bytes) :
+    Res ClientToRelayMsg × KeyCache :=
+  match decodeFrameType bs with
+  | .error f => (.error f, c)
+  | .ok (t, content) =>
+    if content.length > maxPacketSize then (rerr (.tooLarge content.length), c)
+    else
+      match t with
+      | .clientToRelayDatagram | .clientToRelayDatagramBatch =>
+        match decodeKeyedDatagramsC validKey c content (t == .clientToRelayDatagramBatch) with
+        | (.error f, c') => (.error f, c')
+        | (.ok (k, d), c') => (.ok (.datagrams k d), c')
+      | .ping =>
+        match decodePing content with
+        | .error f => (.error f, c)
+        | .ok d => (.ok (.ping d), c)
+      | .pong =>
+        match decodePing content with
+        | .error f => (.error f, c)
+        | .ok d => (.ok (.pong d), c)
+      | other => (rerr (.invalidFrameType other), c)
+
+/-- A frame handed to one of the two decoders. -/
+inductive Frame where
+  | r2c (v : Version) (bs : Bytes)
+  | c2r (bs : Bytes)
+deriving Repr
+
+inductive Decoded where
+  | r2c (r : Res RelayToClientMsg)
+  | c2r (r : Res ClientToRelayMsg)
+
+/-- Decoding without a cache (`validKey` asked directly). -/
+def decodeFrame (validKey : Bytes → Bool) : Frame → Decoded
+  | .r2c v bs => .r2c (decodeR2C validKey v bs)
+  | .c2r bs => .c2r (decodeC2R validKey bs)
+
+/-- Decoding through a cache. -/
+def decodeFrameC (validKey : Bytes → Bool) (c : KeyCache) : Frame → Decoded × KeyCache
+  | .r2c v bs => let r := decodeR2CC validKey c v bs; (.r2c r.1, r.2)
+  | .c2r bs => let r := decodeC2RC validKey c bs; (.c2r r.1, r.2)
+
+/-- A history: frames decoded one after the other through the same cache. -/
+def runCached (validKey : Bytes → Bool) (c : KeyCache) : List Frame → List Decoded × KeyCache
+  | [] => ([], c)
+  | f :: fs =>
+    let r := decodeFrameC validKey c f
+    let rest := runCached validKey r.2 fs
+    (r.1 :: rest.1, rest.2)
+
 end IrohModel.C10
